@@ -91,7 +91,24 @@ pub static C10: CheckSpec = CheckSpec {
     assumptions: &["'certainly learned' = the first k initial candidates plus peers returned by the first report of an asked peer (an under-approximation of what the query incorporated, so the completeness clause cannot false-alarm)"],
 };
 
-pub static ALL: &[&CheckSpec] = &[&C07, &C08, &C09, &C10, &C16];
+pub static C18: CheckSpec = CheckSpec {
+    id: "C18",
+    level: "exploration",
+    scenarios: &[
+        Scenario { name: "filter-adversarial", weight: 2, run: worlds::recvfilter::run },
+        Scenario { name: "filter-conforming", weight: 1, run: worlds::recvfilter::run },
+    ],
+    runs_quick: 40_000,
+    runs_thorough: 4_000_000,
+    cap_quick_s: 60,
+    cap_thorough_s: 900,
+    rule: "one run = one generated arrival schedule (20..420 steps: datagrams from 1-6 IPs x 1-8 node ids, bursts, lulls of 0..31 s, prune ticks, ban/permit list edits) executed twice against a fresh real Filter (with and without the prune ticks: metamorphic pair), quotas burst in {1,2,4,5,8,10} per {0.1,0.5,1,5} s for total / per-IP / per-node; 'conforming' runs generate only traffic that stays within every quota (initial burst, then paced at >= period/burst per key and in total) and demand that nothing is refused; non-trivial = a prune tick occurred or at least one datagram was refused; distinct = distinct hash of the arrival/decision log",
+    components_real: &["socket::filter::Filter (initial_pass, final_pass, prune_limiter)", "socket::filter::rate_limiter::{RateLimiter, Limiter} (GCRA)", "socket::filter::cache::ReceivedPacketCache", "PERMIT_BAN_LIST global"],
+    components_stub: &["OS monotonic clock (interposed)", "UDP receive loop and packet decoding (the filter stages are called directly in the order RecvHandler::handle_inbound calls them; the exemption bypass of handle_inbound is exercised under C13)"],
+    assumptions: &["quota periods are chosen so that period_ns is divisible by the burst: the limiter's integer replenish interval is then exact and 'burst + rate x window' is the exact bound", "ban expiry enforcement (unban) belongs to the Handler task and is not part of this world; bans are only required to last at least ban_duration"],
+};
+
+pub static ALL: &[&CheckSpec] = &[&C07, &C08, &C09, &C10, &C16, &C18];
 
 pub fn lookup(id: &str) -> Option<&'static CheckSpec> {
     ALL.iter().copied().find(|c| c.id.eq_ignore_ascii_case(id))
